@@ -166,6 +166,43 @@ func BufferLib(call *ssa.CallCommon, callee *ssa.Function, args []Value) (Value,
 		return nil, false
 	}
 	pkg := callee.Pkg.Pkg.Path()
+	if pkg == "fmt" && (callee.Name() == "Fprintf" || callee.Name() == "Fprint") && len(args) >= 2 {
+		b, ok := args[0].(*Buf)
+		if !ok {
+			return nil, false
+		}
+		var va []interface{}
+		rest := args[1:]
+		format := ""
+		if callee.Name() == "Fprintf" {
+			f, ok := args[1].(string)
+			if !ok {
+				return Unknown{Why: "Fprintf with a format outside the model"}, true
+			}
+			format = f
+			rest = args[2:]
+		}
+		if len(rest) > 0 {
+			if sl, ok := rest[0].(*Slice); ok {
+				for _, c := range sl.E {
+					switch c.V.(type) {
+					case string, int64, float64, bool:
+						va = append(va, c.V)
+					default:
+						return Unknown{Why: "Fprintf argument outside the model"}, true
+					}
+				}
+			}
+		}
+		var s string
+		if callee.Name() == "Fprintf" {
+			s = fmt.Sprintf(format, va...)
+		} else {
+			s = fmt.Sprint(va...)
+		}
+		b.S += s
+		return Tuple{int64(len(s)), Nil{}}, true
+	}
 	if pkg != "bytes" && pkg != "strings" {
 		return nil, false
 	}
